@@ -413,12 +413,20 @@ func (c *C06Case) runAlias() (res stat.Result) {
 		copyOf = dump(x)
 		got = dump(x)
 	case 6:
-		r := bytes.NewReader(in)
-		dec := sonic.ConfigStd.NewDecoder(r)
+		// the same document twice in one stream: the first value must survive the decoding of the second
+		// (the decoder reuses its read buffer) as well as the caller overwriting what it handed in
+		two := append(append(append([]byte{}, in...), ' ', '\n'), in...)
+		r := bytes.NewReader(two)
+		dec := c06Cfgs[c.Cfg].NewDecoder(r)
 		if err := dec.Decode(&v); err != nil {
 			return
 		}
 		copyOf = dump(v)
+		var second interface{}
+		dec.Decode(&second)
+		for i := range two {
+			two[i] = 0xFF
+		}
 		clobber()
 		// churn the decoder's pooled buffer with another stream
 		var w interface{}
